@@ -15,6 +15,8 @@ package main
 //   watcherSetsDone / rereadsDoneAfterFinish / ctxErrBeforePanic  the shape of runFunc;
 //   stopSetsDone  vm.stop stores 1 into env.done;
 //   blockingCallsOutsideRun  Recv/Send/Select calls of the package outside (*VM).run;
+//   fastPathGuards  for every direct Recv/Send/Select call (no done case) the whole condition under
+//                 which it is made;
 //   doneCheckSites  every place of (*VM).run where the flag test
 //                 `if done != nil && atomic.LoadInt32(&vm.env.done) == 1 { return vm.stop() }` stands:
 //                 "loop-head" (first statement of the instruction loop), "OpX" (first statement of the
@@ -50,6 +52,7 @@ type blOp struct {
 	doneCase  bool
 	extra     string
 	chosenIdx string
+	fast      [][2]string // the direct calls (no done case): which call, under which guard
 }
 
 func blText(fset *token.FileSet, n ast.Node) string { return swText(fset, n) }
@@ -249,6 +252,8 @@ func genBlocking(repo string) (string, error) {
 			good  bool
 			extra string
 			idx   string
+			guard string // for a direct call: the whole condition under which it is made ("" = unconditionally)
+			fast  bool
 		}
 		var calls []found
 		var walk func(n ast.Node, guard *ast.IfStmt, inElse bool)
@@ -269,10 +274,14 @@ func genBlocking(repo string) (string, error) {
 				case *ast.CallExpr:
 					if k := blBlockingCall(fset, x); k != "" {
 						f := found{kind: k}
+						if guard == nil {
+							f.fast = true
+						}
 						if guard != nil {
 							_, f.extra = blIsDoneNil(fset, guard.Cond)
 							if !inElse {
 								f.good = true // only reached without a cancellable context (or when `extra` holds)
+								f.fast, f.guard = true, blText(fset, guard.Cond)
 							} else if els, ok := guard.Else.(*ast.BlockStmt); ok && k == "Select" {
 								f.good, f.idx = blCtxPath(fset, els)
 							}
@@ -293,6 +302,9 @@ func genBlocking(repo string) (string, error) {
 		hasCtxPath := false
 		for _, f := range calls {
 			o.calls = append(o.calls, f.kind)
+			if f.fast {
+				o.fast = append(o.fast, [2]string{f.kind, f.guard})
+			}
 			if !f.good {
 				o.doneCase = false
 			}
@@ -492,6 +504,18 @@ func genBlocking(repo string) (string, error) {
 			cs = append(cs, swLeanStr(c))
 		}
 		fmt.Fprintf(&b, "\n  ⟨%s, [%s], %v, %s, %s⟩", swLeanStr(o.op), strings.Join(cs, ", "), o.doneCase, swLeanStr(o.extra), swLeanStr(o.chosenIdx))
+	}
+	b.WriteString("]\n\n")
+	b.WriteString("/-- the direct calls of Recv / Send / reflect.Select (made without the done case: nothing wakes them but the channel): opcode, call,\nand the whole condition of the if statement in whose then-branch the call stands (\"\" = unconditional) -/\ndef fastPathGuards : List (String × String × String) := [")
+	first := true
+	for _, o := range ops {
+		for _, f := range o.fast {
+			if !first {
+				b.WriteString(",")
+			}
+			first = false
+			fmt.Fprintf(&b, "\n  (%s, %s, %s)", swLeanStr(o.op), swLeanStr(f[0]), swLeanStr(f[1]))
+		}
 	}
 	b.WriteString("]\n\n")
 	fmt.Fprintf(&b, "/-- `done := vm.env.doneChan` (never re-assigned) and the loop of run starts with\n`if done != nil && atomic.LoadInt32(&vm.env.done) == 1 { return vm.stop() }` -/\ndef loopHeadCheck : Bool := %v\n\n", loopHead)
